@@ -4,6 +4,7 @@ package main
 
 import (
 	"fmt"
+	"os"
 	"go/token"
 	"go/types"
 
@@ -114,7 +115,7 @@ func (e *Engine) enumerate(st *State, t *Term, limit int) []uint64 {
 func (e *Engine) enterBlock(fr *Frame, st *State, to *ssa.BasicBlock) {
 	from := fr.block
 	// loop accounting: a jump to a block with index <= current is a back edge
-	if to.Index <= from.Index {
+	if to.Dominates(from) {
 		if fr.loops == nil {
 			fr.loops = map[int]int{}
 		}
@@ -156,6 +157,9 @@ func (e *Engine) step(fr *Frame, st *State) stepResult {
 		panic(unsupported("fell off block"))
 	}
 	instr := fr.block.Instrs[fr.ip]
+	if os.Getenv("VP_SLOW") != "" {
+		e.curWhere = e.where(instr)
+	}
 	if e.cfg.Trace {
 		fmt.Printf("%*s%s: %s\n", e.depth*2, "", fr.fn.Name(), instr.String())
 	}
@@ -256,9 +260,10 @@ func (e *Engine) step(fr *Frame, st *State) stepResult {
 			e.enterBlock(fr, st, fb)
 			return stepResult{kind: stepNext}
 		}
+		lazy := !isLoopHeader(fr.block)
 		return stepResult{kind: stepBranch, branches: []branch{
-			{cond: c, apply: func(f *Frame, s *State) { e.enterBlock(f, s, tb) }},
-			{cond: tm.Not(c), apply: func(f *Frame, s *State) { e.enterBlock(f, s, fb) }},
+			{cond: c, lazy: lazy, apply: func(f *Frame, s *State) { e.enterBlock(f, s, tb) }},
+			{cond: tm.Not(c), lazy: lazy, apply: func(f *Frame, s *State) { e.enterBlock(f, s, fb) }},
 		}}
 	case *ssa.Return:
 		switch len(in.Results) {
@@ -797,4 +802,14 @@ func (e *Engine) typeAssert(fr *Frame, st *State, in *ssa.TypeAssert) Value {
 		panic(pathEnd{"type assertion"})
 	}
 	return res
+}
+
+// isLoopHeader: the block is the target of a back edge.
+func isLoopHeader(b *ssa.BasicBlock) bool {
+	for _, p := range b.Preds {
+		if b.Dominates(p) {
+			return true
+		}
+	}
+	return false
 }
